@@ -680,3 +680,149 @@ type captureKont struct{ fn func(*State, []Val) }
 
 func (k *captureKont) resume(x *X, s *State, res []Val) { k.fn(s, res); x.paths++ }
 
+// ---------------------------------------------------------------- sort.Search (schema T-schemas: binary search)
+
+// sort.Search(n, f) with a closure f whose result is specified by "search k predicate P(idxS)" and whose effect on the
+// captured variables by "search k invariant J(hiS)" (J(n) holds before the call; after a call at index h that returned
+// true J(h) holds, after one that returned false the state still satisfies the J it had). Obligations: P is monotone
+// on [0,n) (false then true), J(n) initially, and for one symbolic call at any index h of a symbolic window
+// lo <= h < hi: the closure returns exactly P(h) and re-establishes J as described. Under these, binary search returns
+// the least index r in [0,n] with P(r) (n if none) and leaves the captured variables in a state satisfying J(r): the
+// last call that returned true was made at r. That step (the loop of sort.Search itself) is the trusted schema.
+type searchKont struct {
+	call  ssa.Value
+	ord   int
+	pred  *Clause
+	invs  []*Clause
+	h, hi string
+	extra func(idxS, hiS string) map[string]Val
+}
+
+func init() {
+	externs["sort.Search"] = func(x *X, s *State, c *ssa.CallCommon, a []Val, call ssa.Value) (Val, bool) {
+		clo, ok := a[1].(Clo)
+		if !ok {
+			x.fail("sort.Search callback is %T", a[1])
+		}
+		if x.searchIdx == nil {
+			x.searchIdx = map[ssa.Value]int{}
+		}
+		ord, seen := x.searchIdx[call]
+		if !seen {
+			ord = len(x.searchIdx)
+			x.searchIdx[call] = ord
+		}
+		var pred *Clause
+		var invs []*Clause
+		for _, cl := range x.ct.Searches[ord] {
+			if cl.Kind == "predicate" {
+				pred = cl
+			} else {
+				invs = append(invs, cl)
+			}
+		}
+		if pred == nil {
+			x.fail("search %d has no predicate clause", ord)
+		}
+		n := tm(a[0])
+		extra := func(idxS, hiS string) map[string]Val {
+			m := map[string]Val{"idxS": iv(idxS), "hiS": iv(hiS), "nS": iv(n)}
+			for i, fv := range clo.Fn.FreeVars {
+				if p, ok := clo.Bind[i].(Ptr); ok {
+					m[fv.Name()] = CellRef{p}
+				} else {
+					m[fv.Name()] = clo.Bind[i]
+				}
+			}
+			return m
+		}
+		P := func(st *State, t string, assuming bool) string {
+			return x.evalClause(st, pred, evalCtx{extra: extra(t, n), assuming: assuming})
+		}
+		// J(n) holds before the search (checked, then available: its state-independent conjuncts, e.g. well-formedness
+		// of the order book, are needed to show that the predicate is monotone)
+		sInit := s.clone()
+		for k, cl := range invs {
+			g := x.evalClause(sInit, cl, evalCtx{extra: extra(n, n)})
+			x.emit(sInit, "search", fmt.Sprintf("search%d.inv%d.init", ord, k), cl.Labels, g, cl.Text)
+		}
+		sMono := s.clone()
+		for _, cl := range invs {
+			sMono.assumeG(cl.Group, x.evalClause(sMono, cl, evalCtx{extra: extra(n, n), assuming: true}))
+		}
+		// monotone: false ... false true ... true
+		{
+			ia, ib := x.bound("a", "Int"), x.bound("b", "Int")
+			g := fmt.Sprintf("(forall ((%s Int) (%s Int)) (=> (and (<= 0 %s) (< %s %s) (< %s %s) %s) %s))", ia, ib, ia, ia, ib, ib, n, P(sMono, ia, true), P(sMono, ib, true))
+			x.lastGroup = pred.Group
+			x.emit(sMono, "search", fmt.Sprintf("search%d.predicate-monotone", ord), pred.Labels, g, "the search predicate is monotone: "+pred.Text)
+		}
+		// havoc the captured cells the callback assigns
+		for bi, b := range clo.Bind {
+			p, ok := b.(Ptr)
+			if !ok || p.Obj == 0 || !closureAssigns(clo.Fn, bi) {
+				continue
+			}
+			cur := pathGet(s.objs[p.Obj], p.Path)
+			var nv Val
+			if _, isPtr := cur.(Ptr); isPtr {
+				nv = x.mk(s, "search.cell", clo.Fn.FreeVars[bi].Type().(*types.Pointer).Elem(), idWrap, false)
+			} else {
+				nv = x.havocLike(s, "search.cell", nil, cur)
+			}
+			s.objs[p.Obj] = pathSet(s.objs[p.Obj], p.Path, nv)
+		}
+		s.assume(fmt.Sprintf("(and (<= 0 %s) (< %s 9223372036854775807))", n, n))
+		// continuation: the state after the search
+		sx := s.clone()
+		r := x.sym("search.result", "Int")
+		sx.assume(fmt.Sprintf("(and (<= 0 %s) (<= %s %s))", r, r, n))
+		{
+			iq := x.bound("q", "Int")
+			sx.assumeG(pred.Group, fmt.Sprintf("(forall ((%s Int)) (=> (and (<= 0 %s) (< %s %s)) (not %s)))", iq, iq, iq, r, P(sx, iq, true)))
+			sx.assumeG(pred.Group, sImp(sApp("<", r, n), P(sx, r, true)))
+		}
+		for _, cl := range invs {
+			sx.assumeG(cl.Group, x.evalClause(sx, cl, evalCtx{extra: extra(r, r), assuming: true}))
+		}
+		// one symbolic call inside a symbolic window
+		h, hi := x.sym("search.h", "Int"), x.sym("search.hi", "Int")
+		s.assume(fmt.Sprintf("(and (<= 0 %s) (< %s %s) (<= %s %s))", h, h, hi, hi, n))
+		for _, cl := range invs {
+			s.assumeG(cl.Group, x.evalClause(s, cl, evalCtx{extra: extra(hi, hi), assuming: true}))
+		}
+		x.pushFrame(s, clo.Fn, []Val{iv(h)}, clo.Bind, nil, &searchKont{call: call, ord: ord, pred: pred, invs: invs, h: h, hi: hi, extra: extra})
+		x.exec(s)
+		fr := sx.top()
+		fr.env[call] = iv(r)
+		fr.idx++
+		x.exec(sx)
+		return nil, false
+	}
+}
+
+// closureAssigns: the callback stores to the captured variable itself (not merely through it).
+func closureAssigns(fn *ssa.Function, bi int) bool {
+	fv := fn.FreeVars[bi]
+	if refs := fv.Referrers(); refs != nil {
+		for _, r := range *refs {
+			if st, ok := r.(*ssa.Store); ok && st.Addr == fv {
+				return true
+			}
+		}
+	}
+	return false
+}
+
+func (k *searchKont) resume(x *X, s *State, res []Val) {
+	r := tm(res[0])
+	p := x.evalClause(s, k.pred, evalCtx{extra: k.extra(k.h, k.hi)})
+	x.emit(s, "search", fmt.Sprintf("search%d.callback-computes-the-predicate", k.ord), k.pred.Labels, sEq(r, p), k.pred.Text)
+	for n, cl := range k.invs {
+		gt := x.evalClause(s, cl, evalCtx{extra: k.extra(k.h, k.h)})
+		x.emit(s, "search", fmt.Sprintf("search%d.inv%d.after-true", k.ord, n), cl.Labels, sImp(r, gt), cl.Text)
+		gf := x.evalClause(s, cl, evalCtx{extra: k.extra(k.hi, k.hi)})
+		x.emit(s, "search", fmt.Sprintf("search%d.inv%d.after-false", k.ord, n), cl.Labels, sImp(sNot(r), gf), cl.Text)
+	}
+	x.paths++
+}
